@@ -13,24 +13,8 @@ def compare_state(ref_u, ref_v, ref_w, after, directed):
     return None
 
 
-def invariant_holds(st0, A):
-    """rows outside the source/target lists are zero (true of every reachable state; the property quantifies over those)"""
-    has_out, has_in = set(), set()
-    for a in range(st0.L):
-        for (i, j), m in A[a].items():
-            if m:
-                has_out.add(i)
-                has_in.add(j)
-    for i in range(st0.N):
-        if i not in has_out and any(x != 0.0 for x in st0.u[i]):
-            return False
-        if st0.directed and i not in has_in and any(x != 0.0 for x in st0.v[i]):
-            return False
-    return True
-
-
 def judge_sweep(ctx, line, st0, A, after, what):
-    if not invariant_holds(st0, A):
+    if not analytic.invariant_holds(st0, A):
         return 'unreachable'
     pyspec.Margin.reset()
     ref = pyspec.em_sweep(st0, A)
